@@ -75,6 +75,12 @@ def handle_sum(v, fac, sf, F):
     fac1 = fac[1]
     argkeys = set(fac0) | set(fac1)
 
+    if argkeys and not (fac0 and fac1):
+        # f*arg + g: the argument-free summand has no place in the factorization
+        # and would silently be dropped. UFL's arity check rejects such forms,
+        # expressions are not checked by UFL.
+        raise RuntimeError("Expecting equal argument rank terms among summands.")
+
     if argkeys:  # f*arg + g*arg = (f+g)*arg
         argkeys = sorted(argkeys)
         keylen = len(argkeys[0])
